@@ -120,7 +120,7 @@ fn inject(rng: &mut Rng, p: &Project, tree: &mut BTreeMap<String, String>, kind:
             tree.insert(f.clone(), t);
             Some(Injected { file: f, kind: kind.into(), stage: 4 })
         }
-        "unknown_field_in_imported_fragment" => {
+        "unknown_field_in_imported_fragment" | "unknown_field_in_fragment" => {
             // a fault inside the body of a fragment that another file imports and spreads in one
             // of its operations: the offending file is the fragment's file
             let mut cands: Vec<(usize, String)> = Vec::new();
@@ -137,9 +137,9 @@ fn inject(rng: &mut Rng, p: &Project, tree: &mut BTreeMap<String, String>, kind:
                             for d2 in &p.ops[g].defs {
                                 if let crate::model::OpDef::Fragment { name, .. } = d2 {
                                     let imported = imp.names.as_ref().is_none_or(|ns| ns.contains(name));
-                                    // (fragment names may repeat across files: only unambiguous ones)
-                                    let unique = p.ops.iter().flat_map(|o| o.defs.iter()).filter(|x| x.is_fragment() && x.name() == Some(name.as_str())).count() == 1;
-                                    if imported && unique && sp.contains(name) {
+                                    // (a fragment of another file may bear the same name: no document
+                                    // contains both, so within this document the name means g's fragment)
+                                    if imported && sp.contains(name) {
                                         cands.push((g, name.clone()));
                                     }
                                 }
@@ -148,10 +148,32 @@ fn inject(rng: &mut Rng, p: &Project, tree: &mut BTreeMap<String, String>, kind:
                     }
                 }
             }
+            if kind == "unknown_field_in_fragment" {
+                // ... or simply a fragment that an operation of its own file spreads
+                cands.clear();
+                for (g, f) in p.ops.iter().enumerate() {
+                    let mut sp = Vec::new();
+                    for d in &f.defs {
+                        if let crate::model::OpDef::Operation { sel, .. } = d {
+                            crate::wgen::spreads_of(sel, &mut sp);
+                        }
+                    }
+                    for d in &f.defs {
+                        if let crate::model::OpDef::Fragment { name, .. } = d {
+                            if sp.contains(name) {
+                                cands.push((g, name.clone()));
+                            }
+                        }
+                    }
+                }
+            }
             if cands.is_empty() {
                 return None;
             }
-            let (g, name) = rng.pick(&cands).clone();
+            // a name that another file defines as well is the interesting place for such a fault
+            // (whatever an earlier document left behind about "the" fragment of that name)
+            let preferred: Vec<(usize, String)> = cands.iter().filter(|c| Some(&c.1) == p.collided_fragment.as_ref()).cloned().collect();
+            let (g, name) = if !preferred.is_empty() && rng.chance(3, 4) { rng.pick(&preferred).clone() } else { rng.pick(&cands).clone() };
             let f = p.op_abs(g);
             let head = format!("fragment {name} on ");
             let t = insert_after_first(&tree[&f], |l| l.trim_start().starts_with(&head) && l.trim_end().ends_with('{'), "  zzUnknownField")?;
@@ -260,6 +282,7 @@ const VIOLATION_KINDS: &[&str] = &[
     "unknown_field",
     "unknown_fragment",
     "unknown_field_in_imported_fragment",
+    "unknown_field_in_fragment",
     "unknown_type",
     "directive_cycle",
     "dup_operation",
@@ -306,6 +329,8 @@ pub fn gen_scenario(run_seed: u64, variant: &str, tier: Tier) -> E2Scenario {
             _ => 0,
         },
         no_config_ok: variant != "c14",
+        // (the c08 classifier reasons with project-unique fragment names)
+        fragment_name_collisions: variant != "c08",
     };
     let project = project::gen_project(&mut rp, &opts);
     let mut tree: BTreeMap<String, String> = project.files().into_iter().collect();
@@ -318,8 +343,15 @@ pub fn gen_scenario(run_seed: u64, variant: &str, tier: Tier) -> E2Scenario {
     };
     if with_violations {
         let n = rv.weighted(&[0, 5, 3, 1]);
-        for _ in 0..n {
+        for k in 0..n {
             let kind = if variant == "c13" { *rv.pick(&["dangling_import", "missing_import_name"]) } else { *rv.pick(VIOLATION_KINDS) };
+            // projects in which two files define a fragment of the same name: half of the time the
+            // first violation goes into a fragment body
+            let kind = if k == 0 && variant != "c13" && project.collided_fragment.is_some() && rv.chance(3, 4) {
+                if rv.chance(1, 2) { "unknown_field_in_fragment" } else { "unknown_field_in_imported_fragment" }
+            } else {
+                kind
+            };
             let mut extra = Vec::new();
             if let Some(i) = inject(&mut rv, &project, &mut tree, kind, &mut extra) {
                 injected.push(i);
@@ -1123,7 +1155,16 @@ fn drive_c14(sc: &E2Scenario, rep: &mut RunReport) {
     let standalone = p.mode() == "standalone-ts-4.0";
     for (slot, &fi) in modules.iter().enumerate() {
         let decl = p.decl_abs(fi);
-        let Some(dts) = after.get(&decl).map(|b| String::from_utf8_lossy(b).into_owned()) else { continue };
+        let Some(dts) = after.get(&decl).map(|b| String::from_utf8_lossy(b).into_owned()) else {
+            // generate succeeded: the declaration file that TypeScript pairs with this operation
+            // file (`x.graphql` -> `x.d.graphql.ts` / `x.graphql.d.ts` / `x.graphql.ts`) must exist
+            rep.violate(
+                &["C14", "C20"],
+                "C14.declaration-file-missing",
+                format!("generate succeeded but there is no declaration file {decl} for {}", p.op_abs(fi)),
+            );
+            continue;
+        };
         let emit = calls.iter().find(|c| matches!(&c.op, e1::Op::Emit { t: e1::TaskRef::Slot(s) } if *s == slot));
         let Some(emit) = emit else {
             rep.violate(&["C14"], "C14.loader-never-emits", format!("{}: the loader host never reached emit", p.op_abs(fi)));
